@@ -19,7 +19,7 @@ extern "C" int LLVMFuzzerTestOneInput(const uint8_t *data, size_t size) {
   if (pl > rest) pl = rest; std::string pay(p, pl); p += pl; rest -= pl;
   std::string sig(p, rest);
   std::string in = enc(h, flags) + "." + enc(pay, flags);
-  const Cfg &c = *CFGS[(ci & 0x1fff) % CFGS.size()];   // bits 13-15 are mode bits (error queue, reused checker, application allocator)
+  const Cfg &c = *CFGS[(ci & 0x0fff) % CFGS.size()];   // bits 12-15 are mode bits (refusing callback, error queue, reused checker, application allocator)
   if ((flags & 4) && c.k) {
     jwt_alg_t a = cfg_alg(c);
     if (flags & 8) { TokParts tp = split_token(in + "."); std::string an; if (header_alg(tp, an) && alg_by_name(an)) a = alg_by_name(an)->alg; }
